@@ -62,3 +62,26 @@ func (hvs *HeightVoteSet) VerifC18Claims() (digest string, count int) {
 	sort.Strings(l)
 	return strings.Join(l, " "), count
 }
+
+// VerifC18Retained counts what the height vote set keeps per height: the rounds it tracks, the
+// catch-up rounds granted to each peer, and the majority claims / per-block tallies of all its vote sets.
+func (hvs *HeightVoteSet) VerifC18Retained() (rounds int, catchup map[string]int, claims int, blockTallies int) {
+	catchup = map[string]int{}
+	if hvs == nil {
+		return
+	}
+	hvs.mtx.Lock()
+	defer hvs.mtx.Unlock()
+	rounds = len(hvs.roundVoteSets)
+	for p, rs := range hvs.peerCatchupRounds {
+		catchup[string(p)] = len(rs)
+	}
+	for _, rvs := range hvs.roundVoteSets {
+		for _, vs := range []interface{ VerifC18ClaimCounts() (int, int) }{rvs.Prevotes, rvs.Precommits} {
+			c, b := vs.VerifC18ClaimCounts()
+			claims += c
+			blockTallies += b
+		}
+	}
+	return
+}
